@@ -52,16 +52,24 @@ pub fn generate(n: usize) -> (Sk, Pk) {
     }
 }
 
-pub fn sign(msg: &[u8], sk: &Sk) -> Sig {
+/// `sign` exactly as a caller gets it: the signer draws from `thread_rng` with no scripted source
+/// installed. Can hang if the code under test can.
+pub fn sign_unbounded(msg: &[u8], sk: &Sk) -> Sig {
     match sk {
         Sk::F512(s) => Sig::F512(falcon512::sign(msg, s)),
         Sk::F1024(s) => Sig::F1024(falcon1024::sign(msg, s)),
     }
 }
 
-/// Sign with the signer's randomness replaced by `rng` (verif-hooks).
+/// `sign` drawing from `thread_rng` through a byte budget (see `util::Budget`): a call that would
+/// never return panics instead.
+pub fn sign(msg: &[u8], sk: &Sk) -> Sig {
+    sign_with(msg, sk, Box::new(rand::thread_rng()))
+}
+
+/// Sign with the signer's randomness replaced by `rng` (verif-hooks), under the byte budget.
 pub fn sign_with(msg: &[u8], sk: &Sk, rng: Box<dyn rand::RngCore>) -> Sig {
-    falcon_rust::verif_hooks::with_sign_rng(rng, || sign(msg, sk))
+    falcon_rust::verif_hooks::with_sign_rng(Box::new(crate::util::Budget::new(rng)), || sign_unbounded(msg, sk))
 }
 
 pub fn verify(msg: &[u8], sig: &Sig, pk: &Pk) -> bool {
